@@ -56,6 +56,7 @@ type Contract struct {
 	Unproved map[string]string // site label -> reason (waivers)
 	Lets     map[string]ast.Expr
 	RecFuns  []*Pred
+	Pkg      string // package of the file the contract was written in ("" for /verif/libcontracts)
 }
 
 // ImmutableDecl: fields of a struct type that are written only by the listed
@@ -185,7 +186,7 @@ func (ss *SpecSet) parseFile(path string, trusted bool, pkgName string) {
 			case "funcfield":
 				full = "funcfield:" + key
 			}
-			cur = &Contract{Key: full, Kind: kind, Loops: map[int]*LoopSpec{}, Trusted: trusted, File: path, Line: lineNo, Unproved: map[string]string{}, Lets: map[string]ast.Expr{}}
+			cur = &Contract{Key: full, Kind: kind, Loops: map[int]*LoopSpec{}, Trusted: trusted, File: path, Line: lineNo, Unproved: map[string]string{}, Lets: map[string]ast.Expr{}, Pkg: pkgName}
 			if _, dup := ss.Contracts[full]; dup {
 				ss.Errors = append(ss.Errors, fmt.Sprintf("%s:%d: duplicate contract %s", path, lineNo, full))
 			}
@@ -260,6 +261,11 @@ func (ss *SpecSet) parseFile(path string, trusted bool, pkgName string) {
 			continue
 		}
 		if cur == nil {
+			if pending != nil {
+				pending.WriteString(" ")
+				pending.WriteString(line)
+				continue
+			}
 			ss.Errors = append(ss.Errors, fmt.Sprintf("%s:%d: clause outside contract: %s", path, lineNo, line))
 			continue
 		}
